@@ -327,7 +327,7 @@ def main():
           for p in props if p["id"] not in CHECKS]
     man = {
         "version": 1,
-        "setup_cmd": "/venv/bin/python -m compileall -q harness && cd spec && for f in *.tla; do tla-sany \"$f\" >/dev/null 2>&1 || { echo \"SANY failed: $f\"; exit 1; }; done",
+        "setup_cmd": "sh tools/setup.sh",
         "hooks": {
             "guard": "FELUPE_VERIF_TRACE",
             "enable": "no source hooks: the harness wraps felupe's module globals / class attributes at run time (harness/vh/tracer.py) when FELUPE_VERIF_TRACE is set; /repo is imported from its working tree (editable install)",
